@@ -12,8 +12,9 @@ import time
 import traceback
 
 ROOT = os.path.dirname(os.path.dirname(os.path.abspath(__file__)))
-EVIDENCE_DIR = os.path.join(ROOT, "evidence")
-REPLAY_DIR = os.path.join(ROOT, "replays")
+# runs against a scratch copy of the repository (tools/seedmatrix.sh, tools/seedtest.sh) must not overwrite the evidence of /repo itself
+EVIDENCE_DIR = os.environ.get("VERIF_EVIDENCE_DIR") or os.path.join(ROOT, "evidence")
+REPLAY_DIR = os.environ.get("VERIF_REPLAY_DIR") or os.path.join(ROOT, "replays")
 KNOWN_FILE = os.path.join(ROOT, "known_findings.json")
 
 
